@@ -81,6 +81,9 @@ def write_files(case):
             for c, v in case["ends"]:
                 # columns: chrom, start-of-centromere, end-of-centromere, chromosome end (last column is used)
                 f.write(f"{c}\t0\t{v/20000:.4f}\t{v/10000:.4f}\n")
+    C.end_file(case, "k.bp", bp)
+    if cen:
+        C.end_file(case, "cen.txt", cen)
     return str(bp), (str(cen) if cen else None)
 
 
